@@ -995,7 +995,7 @@ func (ck *checker) wantSample(g *group, ti, pi int, backend string) bool {
 	n := len(g.trees)
 	switch g.mode {
 	case "valid":
-		if len(g.lists) < 12 || n < 10 {
+		if !strings.HasPrefix(g.name, "valid/entries<=4") || len(g.lists) < 12 || n < 10 {
 			return false
 		}
 		return (backend == "mem" && ti == n-1 && pi == 11) || (backend == "os" && ti == n/2 && pi == 5) || (backend == "mem" && ti == n/3 && pi == 8)
@@ -1025,31 +1025,56 @@ func TestC08(t *testing.T) {
 		return
 	}
 
-	// ---- the bound
+	// ---- the bound: groups of (trees x pattern lists); every group is enumerated completely.
+	// Large trees are paired with few patterns and many patterns with smaller trees (the product of the two
+	// maxima costs hours: every case runs the real code, which compiles three expressions per pattern per call).
 	thorough := ev.Thorough()
-	type boundT struct {
-		FullNamesMaxEntries  int `json:"entries_max_over_names_x_y_xy_yx_z"`
-		SmallNamesEntries    int `json:"entries_exact_over_names_x_xy_z"`
-		MaxPatterns          int `json:"patterns_per_set_max"`
-		InvalidTreesMaxEntry int `json:"entries_max_for_invalid_pattern_lists"`
-		Depth                int `json:"depth_max"`
+	type groupSpec struct {
+		Name        string   `json:"group"`
+		Mode        string   `json:"patterns"`
+		Names       []string `json:"names"`
+		MinEntries  int      `json:"entries_min"`
+		MaxEntries  int      `json:"entries_max"`
+		MaxPatterns int      `json:"patterns_per_list_max"`
+		RootFile    bool     `json:"plus_root_is_a_file"`
+		Trees       int      `json:"trees"`
+		Lists       int      `json:"pattern_lists"`
 	}
-	bound := boundT{FullNamesMaxEntries: 4, SmallNamesEntries: 5, MaxPatterns: 2, InvalidTreesMaxEntry: 3, Depth: maxDepth}
+	specs := []groupSpec{
+		{Name: "valid/entries<=4/patterns<=2", Mode: "valid", Names: allNames, MinEntries: 0, MaxEntries: 4, MaxPatterns: 2, RootFile: true},
+		{Name: "invalid/entries<=3", Mode: "invalid", Names: allNames, MinEntries: 0, MaxEntries: 3, RootFile: true},
+	}
 	if thorough {
-		bound = boundT{FullNamesMaxEntries: 5, SmallNamesEntries: 6, MaxPatterns: 3, InvalidTreesMaxEntry: 4, Depth: maxDepth}
+		specs = []groupSpec{
+			{Name: "valid/entries<=4/patterns<=3", Mode: "valid", Names: allNames, MinEntries: 0, MaxEntries: 4, MaxPatterns: 3, RootFile: true},
+			{Name: "valid/entries=5/patterns<=1", Mode: "valid", Names: allNames, MinEntries: 5, MaxEntries: 5, MaxPatterns: 1},
+			{Name: "valid/entries=6/names=x,xy,z/patterns<=1", Mode: "valid", Names: smallNames, MinEntries: 6, MaxEntries: 6, MaxPatterns: 1},
+			{Name: "invalid/entries<=3", Mode: "invalid", Names: allNames, MinEntries: 0, MaxEntries: 3, RootFile: true},
+		}
 	}
-	validLists := subsets(validPatterns, bound.MaxPatterns)
-	psets := make([]*pset, len(validLists))
-	for i, l := range validLists {
-		psets[i] = newPset(l)
-	}
-	full := append([]tree{{RootFile: true}}, trees(allNames, 0, bound.FullNamesMaxEntries)...)
-	small := trees(smallNames, bound.SmallNamesEntries, bound.SmallNamesEntries)
-	invTrees := append([]tree{{RootFile: true}}, trees(allNames, 0, bound.InvalidTreesMaxEntry)...)
-	groups := []group{
-		{name: "valid/all-names", mode: "valid", trees: full, lists: validLists, psets: psets},
-		{name: "valid/small-names", mode: "valid", trees: small, lists: validLists, psets: psets},
-		{name: "invalid", mode: "invalid", trees: invTrees, lists: invalidLists(thorough)},
+	var groups []group
+	psetCache := map[string]*pset{}
+	for k := range specs {
+		sp := &specs[k]
+		g := group{name: sp.Name, mode: sp.Mode}
+		if sp.RootFile {
+			g.trees = append(g.trees, tree{RootFile: true})
+		}
+		g.trees = append(g.trees, trees(sp.Names, sp.MinEntries, sp.MaxEntries)...)
+		if sp.Mode == "valid" {
+			g.lists = subsets(validPatterns, sp.MaxPatterns)
+			for _, l := range g.lists {
+				key := strings.Join(l, "\x00")
+				if psetCache[key] == nil {
+					psetCache[key] = newPset(l)
+				}
+				g.psets = append(g.psets, psetCache[key])
+			}
+		} else {
+			g.lists = invalidLists(thorough)
+		}
+		sp.Trees, sp.Lists = len(g.trees), len(g.lists)
+		groups = append(groups, g)
 	}
 	exhaustive := true
 	if n, _ := strconv.Atoi(os.Getenv("VERIF_C08_MAXTREES")); n > 0 { // development aid (profiling): never set by a registered command
@@ -1174,12 +1199,10 @@ func TestC08(t *testing.T) {
 	rep.Coverage["distinct_nontrivial"] = tot.nontrivial
 	rep.Coverage["rule"] = "a case is one (backend, tree, pattern list, operation), each enumerated exactly once; it is non-trivial when, with valid patterns, some entry in the operation's domain has a path component that contains a match of some pattern (the filter had to exclude it, or it lies in the unspecified middle), and, with an invalid pattern list, always (the case reaches the validation of the patterns)"
 	rep.Coverage["exhaustive"] = exhaustive
-	rep.Coverage["bound"] = bound
+	rep.Coverage["bound"] = map[string]any{"depth_max": maxDepth, "groups": specs, "operations": opNames[:], "applied_to": "the root of the tree"}
 	rep.Coverage["names"] = allNames
 	rep.Coverage["patterns_valid"] = validPatterns
 	rep.Coverage["patterns_invalid"] = invalidPatterns
-	rep.Coverage["trees"] = map[string]int{"all_names": len(full), "small_names": len(small), "for_invalid_lists": len(invTrees)}
-	rep.Coverage["pattern_lists"] = map[string]int{"valid": len(validLists), "invalid": len(groups[2].lists)}
 	rep.Coverage["backends"] = backends
 	rep.Coverage["per_operation"] = perOp
 	rep.Coverage["distinct_outcomes"] = len(tot.outcomes)
